@@ -11,7 +11,7 @@ from vf.values import show
 
 PID = "C08"
 
-FIRSTS = ["connect-ok", "connect-ok-json", "connect-ok-marshal", "connect-ok-msgpack", "connect-daemon", "connect-unknown-object", "connect-unregistered-object", "connect-unknown-serializer", "connect-serializer-0",
+FIRSTS = ["connect-ok", "connect-bad-secret", "connect-object-none", "connect-object-empty", "connect-object-zero", "connect-object-list", "connect-ok-json", "connect-ok-marshal", "connect-ok-msgpack", "connect-daemon", "connect-unknown-object", "connect-unregistered-object", "connect-unknown-serializer", "connect-serializer-0",
           "connect-no-handshake-key", "connect-no-object-key", "connect-nondict", "connect-list", "connect-undecodable", "connect-empty-payload",
           "type-connectok", "type-connectfail", "type-invoke", "type-invoke-oneway", "type-invoke-batch", "type-result", "type-ping", "type-0", "type-7", "type-255",
           "bad-magic", "bad-version", "garbage16", "http-request", "truncated-header", "nothing"]
@@ -32,6 +32,10 @@ def make_run(cfg):
         def validateHandshake(self, conn, data):
             self.vcalls = getattr(self, "vcalls", 0) + 1
             if validator == "accept":
+                return "hello"
+            if validator == "by-data":       # a validator that looks at what this peer presented
+                if data != "hello":
+                    raise ValueError("validator says no (by-data)")
                 return "hello"
             if validator == "return-none":
                 return None
@@ -82,6 +86,11 @@ def make_run(cfg):
             return msg(protocol.MSG_CONNECT, 0, 1, ser.serializer_id, ser.dumps(ok))
         table = {
             "connect-daemon": lambda: msg(protocol.MSG_CONNECT, 0, 1, 1, serp.dumps({"handshake": "hello", "object": core.DAEMON_NAME})),
+            "connect-bad-secret": lambda: msg(protocol.MSG_CONNECT, 0, 1, 1, serp.dumps({"handshake": "evil", "object": "obj"})),
+            "connect-object-none": lambda: msg(protocol.MSG_CONNECT, 0, 1, 1, serp.dumps({"handshake": "hello", "object": None})),
+            "connect-object-empty": lambda: msg(protocol.MSG_CONNECT, 0, 1, 1, serp.dumps({"handshake": "hello", "object": ""})),
+            "connect-object-zero": lambda: msg(protocol.MSG_CONNECT, 0, 1, 1, serp.dumps({"handshake": "hello", "object": 0})),
+            "connect-object-list": lambda: msg(protocol.MSG_CONNECT, 0, 1, 1, serp.dumps({"handshake": "hello", "object": []})),
             "connect-unknown-object": lambda: msg(protocol.MSG_CONNECT, 0, 1, 1, serp.dumps({"handshake": "hello", "object": "nope"})),
             "connect-unregistered-object": lambda: msg(protocol.MSG_CONNECT, 0, 1, 1, serp.dumps({"handshake": "hello", "object": "gone"})),
             "connect-unknown-serializer": lambda: msg(protocol.MSG_CONNECT, 0, 1, 99, serp.dumps(ok)),
@@ -114,10 +123,12 @@ def make_run(cfg):
     def expect_accept():
         if not first.startswith("connect-ok") and first != "connect-daemon":
             return False
-        return validator in ("accept", "return-none", "return-dict")
+        return validator in ("accept", "return-none", "return-dict", "by-data")
+
+    watch = S.watch_functions(server.Daemon._handshake) if cfg.get("watch_handshake") else None
 
     def run_fn(chooser):
-        w = SchedWorld(chooser, servertype=cfg["server"], allow_ticks=False, max_idle_wakes=20, THREADPOOL_SIZE=3)
+        w = SchedWorld(chooser, servertype=cfg["server"], watch=watch, allow_ticks=False, max_idle_wakes=20, THREADPOOL_SIZE=3)
         violations = []
         try:
             d = w.daemon(VDaemon)
@@ -192,7 +203,7 @@ def make_run(cfg):
                 except Exception as x:
                     got["witness"] = ("exc", x)
             w.client(attacker, "attacker")
-            if validator in ("accept", "return-none", "return-dict"):
+            if validator in ("accept", "return-none", "return-dict", "by-data"):
                 w.client(witness, "witness")
             outcome = w.run()
 
@@ -221,10 +232,11 @@ def make_run(cfg):
                     V("method-executed-on-refused-connection|%s|%s" % (first if not first.startswith("connect-ok") else "connect-ok", validator if first.startswith("connect") else "-"), "log %r" % hits)
                 if protocol.MSG_RESULT in types:
                     V("result-sent-on-refused-connection|%s" % first, "replies %r" % (types,))
-                named = first.startswith("type-") or first in ("connect-unknown-object", "connect-unregistered-object") or (first.startswith("connect-ok") and validator.startswith("raise-")) \
+                named = first.startswith("type-") or first in ("connect-unknown-object", "connect-unregistered-object", "connect-object-none", "connect-object-empty", "connect-object-zero") \
+                    or (first == "connect-bad-secret" and validator == "by-data") or (first.startswith("connect-ok") and validator.startswith("raise-")) \
                     or (first == "connect-daemon" and validator.startswith("raise-"))
                 if named:
-                    reason = {"connect-unknown-object": "unknown object", "connect-unregistered-object": "unknown object"}.get(first, "invalid msg type" if first.startswith("type-") else "validator says no")
+                    reason = "unknown object" if "object" in first else ("invalid msg type" if first.startswith("type-") else "validator says no")
                     if validator in ("raise-empty-ValueError", "raise-bare-PermissionError", "raise-AssertionError") and first.startswith("connect"):
                         reason = ""      # the exception carries no text: the refusal itself is what is owed
                     if validator == "raise-ConnectionClosedError" and first.startswith("connect"):
@@ -272,7 +284,7 @@ def configs(quick):
     out = []
     for server in ("multiplex", "thread"):
         for first in FIRSTS:
-            vals = VALIDATORS if first.startswith("connect-ok") or first == "connect-daemon" else ["accept"]
+            vals = VALIDATORS if first.startswith("connect-ok") or first == "connect-daemon" else (["by-data"] if first == "connect-bad-secret" else ["accept"])
             if quick and first in ("connect-ok-json", "connect-ok-marshal", "connect-ok-msgpack", "connect-daemon"):
                 vals = ["accept", "raise-ValueError"]
             for validator in vals:
@@ -284,6 +296,11 @@ def configs(quick):
                             continue
                         p = 1 if (server == "multiplex" and (not quick or first in ("connect-ok", "type-invoke", "connect-unknown-object"))) else 0
                         out.append({"server": server, "first": first, "validator": validator, "pipeline": pipeline, "together": together, "p": p, "r": 1 if quick else 2, "horizon": 3000})
+    # two handshakes at once on the thread-pool server: every line of Daemon._handshake is a scheduling point
+    for pipeline in ([["invoke"]] if quick else [["invoke"], ["oneway", "invoke", "ping"], []]):
+        for together in (True, False):
+            out.append({"server": "thread", "first": "connect-bad-secret", "validator": "by-data", "pipeline": pipeline, "together": together, "p": 1 if quick else 2, "r": 1 if quick else 2,
+                        "horizon": 4000, "watch_handshake": True})
     return out
 
 
@@ -295,7 +312,8 @@ def run(ctx):
         rule="first message {%d kinds: valid CONNECT with each serializer, CONNECT for the daemon object / an unknown object / unknown or zero serializer id / payload without "
              "keys, non-dict, undecodable, empty; every other message type 0-7,255 incl. INVOKE/oneway/batch of a logging method; bad magic/version, garbage, an HTTP request, "
              "a truncated header, nothing} x validator {%d behaviours} x pipeline {7 message sequences behind it, in the same write or after the reply} x both server types, "
-             "executed by a raw peer against the real requestLoop with a witness client, under all message-level interleavings within the per-config budget; oracle: the "
+             "executed by a raw peer against the real requestLoop with a witness client, under all message-level interleavings within the per-config budget; "
+             "plus a rejected and an accepted handshake racing on the thread-pool server with every line of Daemon._handshake a scheduling point (preemption bound 1/2); oracle: the "
              "logging object records nothing unless the peer received CONNECTOK, which only valid accepted handshakes get; the three named refusals yield CONNECTFAIL with "
              "the reason followed by end of stream; no RESULT on a refused connection; witness served; distinct = observation vectors" % (len(FIRSTS), len(VALIDATORS)),
         extra={"configs": len(cfgs), "budgets_p_r": sorted({(c["p"], c["r"]) for c in cfgs}), "bound_completed": "every execution within each configuration's (preemption, reordering) budget was run to completion"})
